@@ -245,6 +245,11 @@ def check(ctx: Ctx, ev: Evidence) -> list[Finding]:
                     out.append(Finding("C14-R4", f"{which} handler | {cond} | reported more than once per call", f"one {cond} fault invokes the configured callback {n} times in one call", cbs[0][1].site, witness_of(a, e)))
     if table == "default":
         out += probe_all_codes(ctx, ev)
+    else:
+        # free table: abandonment paths exist on the destination as well - the queue/counter invariant must survive them
+        from .c10 import queue_counter_coherence
+        ev.rule("C14-R7", "free fault table: after every public call (incl. abandonment) the ready-PDU counter equals the number of queued PDUs", 2)
+        out += queue_counter_coherence(lambda w: ctx.ats(w, table), ev, "C14-R7")
     ev.extra["explanation"] = f"fault declaration sites (syntax tree), report_fault/set_handler decision tables (abstract evaluation), and every fault-callback event on the ATS edges of both handlers ({table} fault table)"
     ev.assume("quick tier: the default fault-handler table; thorough tier: every handler code for every condition")
     return out
